@@ -20,6 +20,7 @@ type regWrapper struct {
 	Fn    *ssa.Function
 	Iface *types.Interface
 	Name  string
+	Key   string // package path + "." + name of the plugin interface
 }
 
 // c18Wrappers finds, in all pandora packages, the functions of shape
@@ -53,8 +54,8 @@ func c18Wrappers(P *Prog) []*regWrapper {
 			if cc.Args[2] != ssa.Value(fn.Params[1]) {
 				return
 			}
-			_, n := NamedOf(pt.Elem())
-			out = append(out, &regWrapper{Fn: fn, Iface: it, Name: n})
+			p, n := NamedOf(pt.Elem())
+			out = append(out, &regWrapper{Fn: fn, Iface: it, Name: n, Key: p + "." + n})
 		})
 	}
 	sort.Slice(out, func(i, j int) bool { return out[i].Fn.String() < out[j].Fn.String() })
@@ -367,7 +368,9 @@ func c18Constructors(c *Ctx) {
 			})
 			if gc != nil {
 				e, _ := errResult(gc)
-				isE := func(v ssa.Value) bool { return e != nil && DerivesAny(v, false, func(r ssa.Value) bool { return r == e }) }
+				isE := func(v ssa.Value) bool {
+					return e != nil && DerivesAny(v, false, func(r ssa.Value) bool { return r == e })
+				}
 				okPanic, okRet := false, false
 				nPanicOther := 0
 				for _, b := range cl.Blocks {
